@@ -359,7 +359,7 @@ func (c *Ctx) Finish() int {
 		}
 		nviol++
 		_ = os.MkdirAll(replayDir, 0o755)
-		path := filepath.Join(replayDir, sanitize(s)+".json")
+		path := filepath.Join(replayDir, fmt.Sprintf("%s-%08x.json", sanitize(s), uint32(h64(s))))
 		rp := map[string]any{"property": c.Prop, "seed": c.Seed, "tier": c.Tier, "stream": v.Stream, "index": v.Index,
 			"signature": s, "what": v.What, "cases_with_this_signature": v.Count, "witness": v.Witness}
 		b, _ := json.MarshalIndent(rp, "", " ")
